@@ -751,6 +751,15 @@ func run(c *vf.Ctx) {
 				}
 			}
 		}
+		{
+			// transaction combinatorics (first: small): every ordered pair of actions merged into ONE transaction, each
+			// block with the same purity bundle
+			mm := *m
+			mm.Name, mm.Menu, mm.D, mm.K = "merged", chain.MergedMenu, 2, 1
+			xm := chain.NewExplorer(c, &mm, "C09")
+			xm.Run()
+			xm.Report(n + "/merged/")
+		}
 		x := chain.NewExplorer(c, m, "C09")
 		x.Run()
 		x.Report(n + "/")
